@@ -173,7 +173,7 @@ Qed.
 Lemma to_value_total prof p v : ref_ok v -> exists x, to_value prof p v = Ok x.
 Proof.
   destruct v as [|z|n]; cbn [to_value ref_ok]; intros H; eauto.
-  unfold pool_get. destruct H as [H1 H2].
+  unfold pool_get. rewrite nth_opt_N_eq. destruct H as [H1 H2].
   assert (E : (0 <? n) && (n <=? MAX_STRING_REF) = true) by (unfold MAX_STRING_REF in *; lia).
   rewrite E. destruct prof; cbn [rbind];
     destruct (nth_opt (p_strings p) (N.to_nat (n - 1))) as [[s rc]|]; cbn [rbind]; eauto.
